@@ -70,6 +70,34 @@ func runOne(rf *replayFile) outcome {
 	}
 }
 
+// matches reports whether the native outcome is the recorded one.
+func matches(rf *replayFile, o outcome) bool {
+	switch rf.Kind {
+	case "assert":
+		return o.kind == "assert" && o.detail == rf.Label
+	case "panic":
+		return o.kind == "panic" || o.kind == "hang"
+	case "pass":
+		if o.kind != "returned" {
+			return false
+		}
+		if o.st == nil || len(rf.Observes) == 0 {
+			return true
+		}
+		if len(o.st.Observed) != len(rf.Observes) {
+			return false
+		}
+		for i, e := range rf.Observes {
+			n := o.st.Observed[i]
+			if n.Label != e.Label || fmt.Sprint(n.V) != fmt.Sprint(e.V) {
+				return false
+			}
+		}
+		return true
+	}
+	return true
+}
+
 // TestReplay re-runs recorded solver models against the real, natively compiled code.
 // Output: one line "REPLAY <file> <STATUS> <detail>" per file.
 func TestReplay(t *testing.T) {
@@ -95,6 +123,11 @@ func TestReplay(t *testing.T) {
 			continue
 		}
 		o := runOne(&rf)
+		// Go randomises map iteration order: a counterexample (or a recorded passing path) that depends on one
+		// order the executor explored is re-run a few times before it is reported as not reproducing.
+		for try := 0; try < 24 && !matches(&rf, o); try++ {
+			o = runOne(&rf)
+		}
 		status, detail := "NOT-REPRODUCED", o.kind+" "+o.detail
 		switch rf.Kind {
 		case "assert":
